@@ -506,4 +506,106 @@ example : ((run relayOps (Mux.init relayOps)
       fun o => match o with | .data .. => true | .reset .. => true | _ => false) =
     [.data false 0 [1] false, .data false 0 [] true, .data true 0 [2] false] := by decide
 
+/-! ### audit round 6 (cross-audit): further non-vacuity witnesses — paired ids that DIFFER, resets, connection close,
+    the own-connect phase, and direct instantiations of the theorems' hypotheses -/
+
+/-- client stream 8 (first client bidi stream the layer sees) is paired with server stream 0, server-initiated uni
+    stream 7 gets client id 3, client uni stream 2 gets server id 2: cid ≠ sid occurs, bits agree (`id_bits`) -/
+private def hA : List QIn :=
+  [.start, .streamData true 8 [1] false, .hookDone (some 8) none, .streamData false 7 [2] false,
+   .streamData true 2 [3] true, .hookDone (some 2) none]
+
+example : ((run relayOps (Mux.init relayOps) hA).1.streams.map fun s => (s.cid, s.sid)) =
+    [(8, some 0), (3, some 7), (2, some 2)] := by decide
+
+/-- `allocator_id_bits` on a state where three of the four counters have moved -/
+example : (run relayOps (Mux.init relayOps) hA).1.next = ⟨4, 1, 6, 7⟩ := by decide
+
+/-- hypothesis `eventKey i = some (fromClient, id)` of `signals_reach_only_pair` and its third disjunct on a pair with
+    different ids: the message hook of client stream 8 completes, the data goes to SERVER stream 0 -/
+example : eventKey (.hookDone (some 8) none) = some (true, 8) := rfl
+example : (step relayOps (run relayOps (Mux.init relayOps) hA).1 (.hookDone (some 8) none)).2 = [.data false 0 [1] false] := by
+  decide
+
+/-- a reset from the server on stream 0 reaches the paired CLIENT stream 8 with the peer's code -/
+example : (step relayOps (run relayOps (Mux.init relayOps) (hA ++ [.hookDone (some 8) none])).1 (.streamReset false 0 9)).2 =
+    [.reset true 8 9] := by decide
+
+private def hB : List QIn :=
+  hA ++ [.hookDone (some 8) none, .streamReset false 0 9, .streamData true 8 [5] false, .connClosed true 3]
+
+/-- `pairing_is_stable_forever`: after a reset and a connection close the three pairs are still registered unchanged -/
+example : ((run relayOps (Mux.init relayOps) hB).1.streams.map fun s => (s.cid, s.sid)) =
+    [(8, some 0), (3, some 7), (2, some 2)] := by decide
+
+/-- `no_data_or_reset_after_fin_or_reset` instantiated: the split of a concrete history at the ResetQuicStream towards
+    (client, 8); what follows is a hook and the CloseQuicConnection, nothing on (client, 8) -/
+example : ∀ x ∈ [QOut.hook (some 8) (.message true [5]), .closeQuic false 3],
+    (∀ d fin, x ≠ .data true 8 d fin) ∧ (∀ code, x ≠ .reset true 8 code) :=
+  no_data_or_reset_after_fin_or_reset relayOps hB
+    [.hook none .start, .hook (some 8) .start, .hook (some 8) (.message true [1]), .hook (some 3) .start,
+     .hook (some 2) .start, .hook (some 2) (.message true [3]), .data false 0 [1] false]
+    [.hook (some 8) (.message true [5]), .closeQuic false 3] (.reset true 8 9) true 8 (by decide) (Or.inr ⟨9, rfl⟩)
+
+/-- the driver runs `stepQ`; with the server connection up it IS `step` (all theorems about `run` speak about what the
+    driver executes after `reset`) -/
+example (ops : ChildOps σ) (m : Mux σ) (i : QIn) :
+    stepQ ops ⟨m, false, false, []⟩ (.ev i) = (⟨(step ops m i).1, false, false, []⟩, (step ops m i).2) := by
+  simp [stepQ]
+
+/-- the `_with_own_connect` theorems on a concrete non-trivial run: Start makes the layer open the server connection,
+    two stream events are buffered, the successful reply replays them; pairs (8,0) and (3,7) -/
+private def qA : List QInQ :=
+  [.ev .start, .ev (.streamData true 8 [1] false), .ev (.streamData false 7 [2] false), .connectDone false,
+   .ev (.hookDone (some 8) none)]
+
+example : (runQ relayOps (MuxQ.init relayOps false) qA).2 =
+    [.dgram .openServer, .hook none .start, .hook (some 8) .start, .hook (some 3) .start,
+     .hook (some 8) (.message true [1])] := by decide
+example : ((runQ relayOps (MuxQ.init relayOps false) qA).1.m.streams.map fun s => (s.cid, s.sid)) =
+    [(8, some 0), (3, some 7)] := by decide
+
+/-- hypothesis `mq.waiting = true` of `failed_own_connect_ends_layer` holds in a reachable state (after Start on an
+    unconnected layer), and the failed connect then closes the client -/
+example : (stepQ relayOps (MuxQ.init relayOps false) (.ev .start)).1.waiting = true := by decide
+example : (stepQ relayOps (stepQ relayOps (MuxQ.init relayOps false) (.ev .start)).1 (.connectDone true)).2 =
+    [.dgram (.close .client false)] := by decide
+
+/-- `open_connection_pairs_the_stream` instantiated: its hypothesis `TSInv` holds for the translation state of a freshly
+    registered client stream 8 (via `tsinv_start`), and the conclusion is the concrete pairing 8 -> 0 -/
+private def tsA : TS C29.State :=
+  { s := { cid := 8, sid := none, cConn := clientConnFor 8, sConn := .shut, cEnded := false, sEnded := false,
+           child := relayOps.mkStream false },
+    next := ⟨0, 1, 2, 3⟩, out := [], halt := false }
+
+example : (procOne relayOps (translate relayOps FUEL) tsA .openServer).s.sid = some 0 :=
+  (open_connection_pairs_the_stream relayOps FUEL tsA
+    (tsinv_start (s := tsA.s) (n := ⟨0, 1, 2, 3⟩) ⟨rfl, rfl, rfl, rfl⟩ (by
+      refine ⟨?_, ?_, ?_, ?_⟩
+      · intro t h; simp [tsA] at h
+      · intro _; rfl
+      · intro h; simp [tsA] at h
+      · intro t h; simp [tsA] at h))
+    rfl rfl).1
+
+/-- `no_data_to_unwritable_side` / `fin_makes_side_unwritable` on a concrete translation state: after the FIN towards
+    the server the server side is unwritable, and data for it is then dropped -/
+private def tsB : TS C29.State :=
+  { tsA with s := { tsA.s with sid := some 0, sConn := .opened } }
+
+example : ((procOne relayOps (translate relayOps FUEL) tsB (.close .server true)).s.conn .server).canWrite = false :=
+  fin_makes_side_unwritable relayOps (translate relayOps FUEL) tsB .server rfl (by decide)
+example : (procOne relayOps (translate relayOps FUEL) tsB (.close .server true)).out = [.data false 0 [] true] := by decide
+example : procOne relayOps (translate relayOps FUEL)
+    (procOne relayOps (translate relayOps FUEL) tsB (.close .server true)) (.send .server [9]) =
+    procOne relayOps (translate relayOps FUEL) tsB (.close .server true) :=
+  no_data_to_unwritable_side relayOps _ _ .server [9]
+    (fin_makes_side_unwritable relayOps (translate relayOps FUEL) tsB .server rfl (by decide)) (by decide)
+
+/-- once both QUIC connections are closed the layer is done: a later stream event produces nothing (the first disjunct
+    `outs = []` of `signals_reach_only_pair`), and the pairs are still there -/
+example : (step relayOps (run relayOps (Mux.init relayOps) (hB ++ [.connClosed false 3])).1 (.streamData true 8 [1] false)).2 = [] ∧
+    ((run relayOps (Mux.init relayOps) (hB ++ [.connClosed false 3, .streamData true 8 [1] false])).1.streams.map
+      fun s => (s.cid, s.sid)) = [(8, some 0), (3, some 7), (2, some 2)] := by decide
+
 end MitmVerif.Props.C30
